@@ -1,11 +1,7 @@
 package main
 
 import (
-	"bytes"
 	"fmt"
-	"os"
-	"path/filepath"
-	"regexp"
 
 	dg "verifharness/designgen"
 )
@@ -112,37 +108,3 @@ func routesDesigns(prop string) []*dg.Design {
 	}
 	return out
 }
-
-// repairTypedCookieEncoders works around goa's recorded finding C01 non-string-cookie so that
-// typed request cookies can be exercised at all: the generated CLIENT request encoder converts
-// a non-string cookie with its two variables swapped (`vraw := *p.X` then `vraw := strconv…(v)`,
-// request_encoder.go.tpl passes "vraw" "v" to typeConversionData where headers pass new, old)
-// and does not compile. The second line is rewritten to `v := strconv…(vraw)`. Only the client
-// encoder is touched - neither the server nor the document, which are what C04 / C14 judge -
-// and the rewrite finds nothing to do once the template is repaired. Returns the number of
-// rewritten sites.
-func repairTypedCookieEncoders(dir string) int {
-	files, _ := filepath.Glob(filepath.Join(dir, "*", "gen", "http", "*", "client", "encode_decode.go"))
-	n := 0
-	for _, f := range files {
-		src, err := os.ReadFile(f)
-		if err != nil {
-			continue
-		}
-		out := swappedCookieConv.ReplaceAllFunc(src, func(m []byte) []byte {
-			sub := swappedCookieConv.FindSubmatch(m)
-			n++
-			conv := wordV.ReplaceAll(sub[3], []byte("vraw"))
-			return []byte(string(sub[1]) + string(sub[2]) + "v := " + string(conv) + "\n")
-		})
-		if !bytes.Equal(out, src) {
-			os.WriteFile(f, out, 0o644)
-		}
-	}
-	return n
-}
-
-var (
-	swappedCookieConv = regexp.MustCompile(`(?m)^([ \t]*vraw := \*?p\.\w+\n)([ \t]*)vraw := ([^\n]*)\n`)
-	wordV             = regexp.MustCompile(`\bv\b`)
-)
